@@ -991,8 +991,10 @@ def _call_closure_paths(ex, st, f, argvals):
     else:
         env = fv
     for s2, kind, val in ex.call_fn(cf, [env] + list(argvals), st, ex.closure_inst(fv[1])):
+        if kind == "panic":
+            continue        # a panicking branch inside the closure (e.g. unwrap of None): not a returning path
         if kind != "ret":
-            raise Unanalysable("closure diverges")
+            raise Unanalysable("closure does not return (%s)" % kind)
         yield s2, val
 
 
@@ -1178,6 +1180,53 @@ def m_option_unwrap_or(ex, st, call, args):
     return gen()
 
 
+ORD = "core::cmp::Ordering"
+
+
+def _ord_cases(ex, st, v):
+    """yield (state, variant name, value) for an Ordering value, forking when symbolic"""
+    if v[0] in ("ref", "&"):
+        v = ex.deref_val(st, v)
+    if v[0] == "adt" and v[1] == ORD:
+        yield st, v[2], v
+        return
+    cv = ex.canon(st, v)
+    d = ("discr", cv, ORD)
+    known = st.pc.get(d)
+    for name, val in CORE_ENUMS[ORD]:
+        if known is not None and known != val:
+            continue
+        s2 = st if known is not None else st.clone()
+        if known is None:
+            s2.assume(d, val)
+        yield s2, name, ("adt", ORD, name, ())
+
+
+def m_ord_then_with(ex, st, call, args):
+    def gen():
+        for s, name, val in _ord_cases(ex, st, args[0]):
+            if name != "Equal":
+                yield s, "ret", val
+            else:
+                for s2, v in _call_closure_paths(ex, s, args[1], []):
+                    yield s2, "ret", v
+    return gen()
+
+
+def m_ord_then(ex, st, call, args):
+    def gen():
+        for s, name, val in _ord_cases(ex, st, args[0]):
+            yield s, "ret", (val if name != "Equal" else args[1])
+    return gen()
+
+
+def m_ord_reverse(ex, st, call, args):
+    def gen():
+        for s, name, val in _ord_cases(ex, st, args[0]):
+            yield s, "ret", ("adt", ORD, {"Less": "Greater", "Greater": "Less", "Equal": "Equal"}[name], ())
+    return gen()
+
+
 DEFAULT_MODELS = {
     "core::cmp::PartialOrd::lt": m_cmp("lt"),
     "core::cmp::PartialOrd::le": m_cmp("le"),
@@ -1197,6 +1246,9 @@ DEFAULT_MODELS = {
     "alloc::vec::Vec::<T, A>::len": m_len,
     "core::slice::<impl [T]>::len": m_len,
     "core::borrow::Borrow::borrow": m_identity,
+    "core::cmp::Ordering::then_with": m_ord_then_with,
+    "core::cmp::Ordering::then": m_ord_then,
+    "core::cmp::Ordering::reverse": m_ord_reverse,
     "core::option::Option::<T>::map": m_option_map,
     "core::option::Option::<T>::is_some": m_option_is(True),
     "core::option::Option::<T>::is_none": m_option_is(False),
